@@ -1,18 +1,190 @@
-"""Script generator for C08 (RandomTools cumulative / quantile functions)."""
-import random, struct
+"""Script generator for C08 (RandomTools cumulative / quantile functions).
+
+Three streams:
+  1. guard / wrapper layer: grids over special values including the invalid region (negative
+     shapes, probabilities outside [0,1], the cut-offs of the argument checks and their
+     floating-point neighbours) + random valid points;
+  2. pNorm / qNorm bit-exact tie: z in [-40,40] dense around the branch cut-offs, random p;
+  3. exploration (ops `x.*`, judged by the driver against tolerances / reference values that are
+     embedded in the op line; reference values come from scipy.special in the tooling venv).
+"""
+import random, struct, itertools, math, os, subprocess, json, sys
 
 
 def hx(x):
     return "%016x" % struct.unpack("<Q", struct.pack("<d", x))[0]
 
 
+def unhx(s):
+    return struct.unpack("<d", struct.pack("<Q", int(s, 16)))[0]
+
+
+def nxt(x, n=1):
+    """n-th floating-point neighbour of x"""
+    for _ in range(abs(n)):
+        x = math.nextafter(x, math.inf if n > 0 else -math.inf)
+    return x
+
+
+def around(x):
+    return [nxt(x, -1), x, nxt(x, 1)]
+
+
+def chunks(tag, ops, n=120):
+    return [["case %s%d" % (tag, i)] + ops[i:i + n] for i in range(0, len(ops), n)]
+
+
+# ---------------------------------------------------------------------------------- stream 1
+X_SPECIAL = [-1e300, -3.0, -1e-300, -0.0, 0.0, 5e-324, 1e-300, 1e-9, 0.3, 0.5, 0.95, 1.0, 1.5, 7.0, 60.0, 1e5]
+SHAPE_SPECIAL = [-2.0, -1e-300, -0.0, 0.0, 1e-300, 0.05, 0.5, 1.0, 2.5, 30.0, 200.0]
+RATE_SPECIAL = [-1.0, -1e-300, -0.0, 0.0, 1e-3, 0.5, 1.0, 40.0, 1e3]
+P_SPECIAL = [-1.0, -1e-300, -0.0, 0.0, 1e-300, 1e-21] + around(1e-20) + [1e-12, 1e-7] + around(.000002) + [1e-3, 0.25] \
+    + around(0.5) + [0.9] + around(.999998) + [1 - 1e-7, nxt(1.0, -1), 1.0, nxt(1.0, 1), 2.0]
+X01_SPECIAL = [-1.0, -1e-300, -0.0, 0.0, 1e-300, 1e-5, 0.2, 0.5, 0.94, 0.95, 0.96, nxt(1.0, -1), 1.0, nxt(1.0, 1), 3.0]
+BSHAPE_SPECIAL = [-1.0, -1e-300, -0.0, 0.0, 0.1, 0.3, 1.0, 2.5, 40.0, 200.0]
+# shapes for which the AS109 iteration is known to be quick (qbeta may need many pBeta calls otherwise)
+QBSHAPE_SPECIAL = [-1.0, -1e-300, -0.0, 0.0, 0.3, 1.0, 2.5, 40.0, 200.0]
+MU_SPECIAL = [-3.0, 0.0, 0.5, 100.0]
+SIGMA_SPECIAL = [0.25, 1.0, 3.0, 1e-3, -2.0]
+
+
+def guard_grid(rng, tier):
+    ops = []
+    for x, a in itertools.product(X_SPECIAL, SHAPE_SPECIAL):
+        g = math.lgamma(a) if a != 0 and not (a < 0 and a == int(a)) else 0.0
+        ops.append("ig %s %s %s" % (hx(x), hx(a), hx(g)))
+    for x, a, b in itertools.product(X_SPECIAL, SHAPE_SPECIAL, RATE_SPECIAL):
+        ops.append("pgamma %s %s %s" % (hx(x), hx(a), hx(b)))
+    for x, v in itertools.product(X_SPECIAL, SHAPE_SPECIAL + [0.1, 400.0]):
+        ops.append("pchisq %s %s" % (hx(x), hx(v)))
+    for p, v in itertools.product(P_SPECIAL, SHAPE_SPECIAL + [0.1, 400.0]):
+        ops.append("qchisq %s %s" % (hx(p), hx(v)))
+    for p, a, b in itertools.product(P_SPECIAL, [-2.0, -0.0, 0.0, 0.05, 1.0, 2.5, 200.0], [-1.0, 1e-3, 0.5, 1.0, 1e3]):
+        ops.append("qgamma %s %s %s" % (hx(p), hx(a), hx(b)))
+    for x, a, b in itertools.product(X01_SPECIAL, BSHAPE_SPECIAL, BSHAPE_SPECIAL):
+        ops.append("ibeta %s %s %s" % (hx(x), hx(a), hx(b)))
+        if rng.random() < 0.3:
+            ops.append("pbeta %s %s %s" % (hx(x), hx(a), hx(b)))
+    PQ = [-1.0, -1e-300, -0.0, 0.0, 1e-6, 0.25, 0.5, 0.75, 1 - 1e-6, 1.0, nxt(1.0, 1), 2.0]
+    for p, a, b in itertools.product(PQ, QBSHAPE_SPECIAL, QBSHAPE_SPECIAL):
+        ops.append("qbeta %s %s %s" % (hx(p), hx(a), hx(b)))
+    for a, b in itertools.product([0.1, 0.3, 1.0, 2.5, 200.0], repeat=2):
+        ops.append("lnbeta %s %s" % (hx(a), hx(b)))
+    for p in P_SPECIAL:
+        ops.append("qnorm " + hx(p))
+        for mu, s in itertools.product(MU_SPECIAL, SIGMA_SPECIAL):
+            ops.append("qnorm3 %s %s %s" % (hx(p), hx(mu), hx(s)))
+    for x in [-1e300, -40.0, -37.5193, -8.3, -5.7, -0.67448975, -1e-20, -0.0, 0.0, 1e-21, 0.3, 0.67448975, 5.6, 5.7, 8.2924, 8.3, 37.6, 1e300]:
+        for mu, s in itertools.product(MU_SPECIAL, SIGMA_SPECIAL):
+            ops.append("pnorm3 %s %s %s" % (hx(x), hx(mu), hx(s)))
+    return chunks("guard", ops)
+
+
+def log_uniform(rng, lo, hi):
+    return math.exp(rng.uniform(math.log(lo), math.log(hi)))
+
+
+def guard_random(rng, n):
+    """random points, mostly valid, some with one invalid coordinate"""
+    ops = []
+    for _ in range(n):
+        k = rng.randrange(11)
+        bad = rng.random() < 0.2
+        a = log_uniform(rng, 0.05, 200)
+        b = log_uniform(rng, 1e-3, 1e3)
+        p = rng.choice([rng.uniform(1e-6, 1 - 1e-6), log_uniform(rng, 1e-6, 0.5), 1 - log_uniform(rng, 1e-6, 0.5)])
+        x = rng.choice([log_uniform(rng, 1e-300, 1e3), rng.uniform(0, 4 * a / b), a / b])
+        if bad:
+            w = rng.randrange(3)
+            if w == 0:
+                a = -a if rng.random() < 0.7 else 0.0
+            elif w == 1:
+                b = -b if rng.random() < 0.7 else 0.0
+            else:
+                p = rng.choice([-p, 1 + p, 0.0, 1.0, p * 1e-6])
+                x = -x
+        if k == 0:
+            ops.append("pgamma %s %s %s" % (hx(x), hx(a), hx(b)))
+        elif k == 1:
+            ops.append("pchisq %s %s" % (hx(x * b), hx(2 * a)))
+        elif k == 2:
+            ops.append("qchisq %s %s" % (hx(p), hx(2 * a)))
+        elif k == 3:
+            ops.append("qgamma %s %s %s" % (hx(p), hx(a), hx(b)))
+        elif k == 4:
+            ops.append("ig %s %s %s" % (hx(x * b), hx(a), hx(math.lgamma(a) if a > 0 else 0.0)))
+        elif k in (5, 6):
+            al, be = log_uniform(rng, 0.1, 200), log_uniform(rng, 0.1, 200)
+            xx = rng.choice([rng.random(), log_uniform(rng, 1e-300, 1), 1 - log_uniform(rng, 1e-16, 1)])
+            if bad:
+                w = rng.randrange(3)
+                if w == 0:
+                    al = -al if rng.random() < 0.7 else 0.0
+                elif w == 1:
+                    be = -be if rng.random() < 0.7 else 0.0
+                else:
+                    xx = rng.choice([-xx, 1 + xx])
+            ops.append("%s %s %s %s" % ("ibeta" if k == 5 else "pbeta", hx(xx), hx(al), hx(be)))
+        elif k == 7:
+            al, be = log_uniform(rng, 0.3, 200), log_uniform(rng, 0.3, 200)
+            if bad:
+                if rng.random() < 0.5:
+                    al = -al
+                else:
+                    p = rng.choice([-p, 1 + p])
+            ops.append("qbeta %s %s %s" % (hx(p), hx(al), hx(be)))
+        elif k == 8:
+            ops.append("lnbeta %s %s" % (hx(log_uniform(rng, 0.1, 200)), hx(log_uniform(rng, 0.1, 200))))
+        elif k == 9:
+            ops.append("qnorm3 %s %s %s" % (hx(p), hx(rng.uniform(-50, 50)), hx(log_uniform(rng, 1e-3, 1e3))))
+        else:
+            mu, s = rng.uniform(-50, 50), log_uniform(rng, 1e-3, 1e3)
+            ops.append("pnorm3 %s %s %s" % (hx(mu + s * rng.uniform(-40, 40)), hx(mu), hx(s)))
+    return chunks("grnd", ops)
+
+
+# ---------------------------------------------------------------------------------- stream 2
+PNORM_CUTS = [0.0, 1e-20, 0.67448975, math.sqrt(32), 8.2924, 37.5193, 40.0]
+
+
+def norm_tie(rng, n):
+    ops = []
+    zs = []
+    for c in PNORM_CUTS:
+        for s in (-1, 1):
+            for k in range(-3, 4):
+                zs.append(nxt(s * c, k))
+    zs += [i / 16.0 for i in range(-640, 641, 7)]          # exact multiples of 1/16 (trunc)
+    zs += [rng.uniform(-40, 40) for _ in range(n)]
+    zs += [rng.uniform(-1, 1) for _ in range(n // 4)]
+    zs += [rng.choice([-1, 1]) * log_uniform(rng, 1e-300, 1) for _ in range(n // 8)]
+    zs += [rng.uniform(-6, 6) for _ in range(n // 4)]
+    zs += [float("nan"), float("inf"), float("-inf"), 1e300, -1e300]
+    for z in zs:
+        ops.append("pnorm " + hx(z))
+    ps = [rng.random() for _ in range(n // 2)] + [log_uniform(rng, 1e-25, 0.5) for _ in range(n // 4)] \
+        + [1 - log_uniform(rng, 1e-17, 0.5) for _ in range(n // 4)] + [float("nan"), -0.5, 1.5]
+    for p in ps:
+        ops.append("qnorm " + hx(p))
+    return chunks("norm", ops, 400)
+
+
 def generate(seed, tier):
     rng = random.Random(seed)
+    big = tier == "thorough"
     cases = []
-    ops = []
-    for i in range(2000):
-        ops.append("pnorm " + hx(rng.uniform(-40, 40)))
-        ops.append("qnorm " + hx(rng.random()))
-    for i in range(0, len(ops), 200):
-        cases.append(["case n%d" % i] + ops[i:i + 200])
+    cases += guard_grid(rng, tier)
+    cases += guard_random(rng, 20000 if big else 3000)
+    cases += norm_tie(rng, 40000 if big else 4000)
     return cases
+
+
+if __name__ == "__main__":
+    cs = generate(int(sys.argv[1]) if len(sys.argv) > 1 else 1, sys.argv[2] if len(sys.argv) > 2 else "quick")
+    hist = {}
+    for c in cs:
+        for l in c[1:]:
+            hist[l.split()[0]] = hist.get(l.split()[0], 0) + 1
+    print(len(cs), "cases", sum(hist.values()), "ops")
+    for k in sorted(hist):
+        print("  %-12s %d" % (k, hist[k]))
